@@ -77,7 +77,16 @@ func urlReplay(s *Summary, raw json.RawMessage) {
 				r = newRouter(rux.StrictLastSlash)
 			}
 			r.GET("/zz/{decoy}/{d2}/{d3}/{d4}", nopHandler) // decoys registered before and after
-			target := r.AddNamed("target", c.Pat, nopHandler)
+			var target *rux.Route
+			grouped := it%2 == 1 && style%3 == 0
+			if grouped {
+				// the route object exists (and has been asked for its URL) before it is registered inside a group
+				target = rux.NewNamedRoute("target", c.Pat, nopHandler, "GET")
+				_ = target.ToURL()
+				r.Group("/v2", func() { target.AttachTo(r) })
+			} else {
+				target = r.AddNamed("target", c.Pat, nopHandler)
+			}
 			r.GET("/zz", nopHandler)
 			var u *url.URL
 			desc := func(aspect, what string) map[string]any {
@@ -129,9 +138,23 @@ func urlReplay(s *Summary, raw json.RawMessage) {
 				s.mismatch(desc("build-panic", fmt.Sprintf("BuildURL(%q, %v) panicked: %v", c.Pat, want, pan)), c)
 				return
 			}
-			if u.Path != built {
-				s.mismatch(desc("built", fmt.Sprintf("BuildURL(%q, %v).Path = %q, spec %q", c.Pat, want, u.Path, built)), c)
+			wantPath := built
+			if grouped {
+				wantPath = "/v2" + built
+			}
+			if u.Path != wantPath {
+				s.mismatch(desc("built", fmt.Sprintf("BuildURL(%q, %v).Path = %q, spec %q (registered in group /v2: %v)", c.Pat, want, u.Path, wantPath, grouped)), c)
 				return
+			}
+			// the URL belongs to the caller: whatever is done to it must not show in the next URL built for the route
+			if len(want) == 0 && nextra == 0 {
+				u.Path += "/polluted"
+				u.RawQuery = "p=1"
+				if u2 := r.BuildURL("target"); u2.Path != wantPath || u2.RawQuery != "" {
+					s.mismatch(desc("built", fmt.Sprintf("second BuildURL(%q) = %q after the caller changed the first result, spec %q", c.Pat, u2.String(), wantPath)), c)
+					return
+				}
+				u.Path, u.RawQuery = wantPath, ""
 			}
 			req, err := http.NewRequest("GET", "http://example.com"+u.String(), nil)
 			if err != nil {
